@@ -123,8 +123,10 @@ class SchemaGen:
                 s["additionalItems"] = r.choice([False, False, True])
         if self.coin(0.3):
             s["uniqueItems"] = True
-        if self.coin(self.po):
-            s[r.choice(["minItems", "maxItems"])] = r.randint(1, 3)
+        if self.coin(0.25):
+            s["minItems"] = r.randint(0, 2)
+        if self.coin(0.25):
+            s["maxItems"] = r.randint(2, 4)
         return s
 
     def mapping(self, depth):
@@ -278,6 +280,18 @@ FIXED = [
     {"type": "object", "properties": {"p": {"enum": [1, None]}}, "required": ["p"], "additionalProperties": True},
     {"type": "object", "properties": {"p": {"type": "object", "properties": {"x": {"type": "integer"}}, "required": ["x"], "additionalProperties": False},
                                        "q": {"type": "integer"}}, "required": ["p"], "additionalProperties": True},
+    # NUL: escaped by repr in patterns / defaults / enums, pasted raw into the docstring
+    {"type": "object", "properties": {"p": {"type": "string", "pattern": "^a\x00b"}, "q": {"type": "string", "default": "d\x00"},
+                                       "e": {"enum": ["\x00", "x"]}}, "required": ["p", "q"], "additionalProperties": True},
+    {"type": "object", "description": "nul \x00 here", "properties": {"p": {"type": "integer"}}, "required": ["p"], "additionalProperties": True},
+    # long hostile strings (the lexer model must stay linear)
+    {"type": "object", "description": "long \"\"\"\" 'q' \\ \r\n \\x41 \\N{DASH} \\u00e9 tail\\ " * 6,
+     "properties": {"p": {"type": "string", "pattern": "^" + "it's\\b\\d\\.\\x41\"\\\\" * 8},
+                    "q": {"type": "string", "default": "it's \\n \\N{DASH} \"\"\" \\" * 8},
+                    "r": {"type": "array", "minItems": 1, "maxItems": 3, "items": {"type": "integer"}}},
+     "required": ["p", "q", "r"], "additionalProperties": True},
+    {"type": "object", "properties": {"p": {"type": "integer", "default": 1}}},
+    {"type": "object"},
 ]
 
 
@@ -545,7 +559,9 @@ def reachable_defs(schema, defs):
     return seen
 
 
-def site_key(site):
+def site_key(site, desc=None):
+    if site == "description" and desc is not None and "\x00" in desc:
+        return "unescaped:description-nul"
     return {"pattern": "unescaped:pattern", "default": "unescaped:default", "description": "unescaped:description",
             "enum": "unescaped:enum", "required": "unescaped:required", "default-repr": "unescaped:default-repr"}[site]
 
@@ -592,9 +608,7 @@ def judge(case, impl, model):
         return ("; ".join(msgs) or None), fails
     if phase_i in ("compile", "exec"):
         if unfaithful:
-            key = site_key(unfaithful[0])
-        elif model["bodyEmpty"]:
-            key = "compile:empty-class-body"
+            key = site_key(unfaithful[0], schema.get("description"))
         elif not model["refsOrdered"]:
             key = "exec:forward-ref"
         else:
@@ -605,7 +619,7 @@ def judge(case, impl, model):
 
     # -- real phase ok
     if unfaithful:
-        fails.append((site_key(unfaithful[0]),
+        fails.append((site_key(unfaithful[0], schema.get("description")),
                       "the emitted literal does not denote the schema's string: "
                       + json.dumps([s for s in model["sites"] if not s["faithful"]][:2], ensure_ascii=False)[:300]))
     if "dump_err" in impl:
@@ -623,8 +637,8 @@ def judge(case, impl, model):
             msgs.append(f"docstring differs: real {impl.get('doc')!r} model {model.get('doc')!r}")
     # docstring oracle
     desc = schema.get("description")
-    if desc is not None and impl.get("doc") != f"\n    {desc}\n    " and "unescaped:description" not in [k for k, _ in fails]:
-        fails.append(("unescaped:description", f"docstring {impl.get('doc')!r} is not the description {desc!r}"))
+    if desc is not None and impl.get("doc") != f"\n    {desc}\n    " and not any(k.startswith("unescaped:description") for k, _ in fails):
+        fails.append((site_key("description", desc), f"docstring {impl.get('doc')!r} is not the description {desc!r}"))
 
     # -- round trip
     issues = [i for i in model["issues"] if i != "top-level-wrapped"]
@@ -640,8 +654,9 @@ def judge(case, impl, model):
         got_defs = {n: norm_schema(d) for n, d in impl["backDefs"].items()}
     if phase_m == "ok" and "back" in model and not unfaithful and "collapse-after-required-mutation" not in issues:
         mback = norm_schema(unwire_schema(model["back"]))
-        mdefs = {n: norm_schema(unwire_schema(d)) for n, d in model.get("defBacks", [])
-                 if n in reachable_defs(schema, defs)}
+        # definitions the real mapping visits = those reachable from what the class still refers to
+        reach_m = reachable_defs(unwire_schema(model["back"]), defs)
+        mdefs = {n: norm_schema(unwire_schema(d)) for n, d in model.get("defBacks", []) if n in reach_m}
         if "unsupported" in json.dumps(mback) or "unsupported" in json.dumps(mdefs):
             if "back_err" not in impl:
                 msgs.append("model: structure_to_schema raises, real returns " + json.dumps(got)[:300])
